@@ -9,6 +9,7 @@
    soundly with as many content bytes as its size. *)
 From Coq Require Import NArith List Bool Permutation.
 From CppUVerif Require Import gen.Gen_Common gen.Gen_C05 lib.Str C05_Model C05_Proofs C05_History C05_Theorems.
+From CppUVerif Require C05_LeafTie.
 Import ListNotations.
 Local Open Scope N_scope.
 
@@ -140,3 +141,9 @@ Theorem C05_old_refuted :
   (valid witness_D20 = true /\ spec witness_D20 (run_v old_D20 witness_D20) = false).
 Proof. exact old_refuted. Qed.
 Print Assumptions C05_old_refuted.
+
+(* the size arithmetic of the model IS the source (default build, guard bytes on): aligned / with_guard / fits equal the
+   functions tools/cxx2coq.py regenerates from clang's AST of MemoryLeakDetector.cpp on every run (gen/Gen_Leaf.v) *)
+Theorem C05_size_arithmetic_is_the_source : C05_LeafTie.C05_size_arithmetic_is_the_source_stmt.
+Proof. exact C05_LeafTie.C05_size_arithmetic_is_the_source. Qed.
+Print Assumptions C05_size_arithmetic_is_the_source.
